@@ -34,26 +34,32 @@ def applies(schema, type_condition_name, runtime):
     return is_abstract_type(cond) and schema.is_sub_type(cond, runtime)
 
 
-def collect(schema, fragments, selection_set, runtime, conditional=False, out=None, via=None):
+def collect(schema, fragments, selection_set, runtime, conditional=False, out=None, via=None, static=None):
     """response key -> {"nodes": [FieldNode...], "conditional": all occurrences are conditional,
-    "fragments": names of the named fragments the key is (also) selected through}"""
+    "fragments": names of the named fragments the key is (also) selected through,
+    "statics": for each node the name of the type whose selection set it was written in (the field's STATIC parent
+    type: the position's type, or the type condition of the enclosing fragment) - None when unknown}"""
     out = OrderedDict() if out is None else out
+    static = static if static is not None else getattr(selection_set, "static_type", None)
     for sel in selection_set.selections:
         if isinstance(sel, FieldNode):
             key = sel.alias.value if sel.alias else sel.name.value
-            e = out.setdefault(key, {"nodes": [], "conditional": True, "fragments": set()})
+            e = out.setdefault(key, {"nodes": [], "conditional": True, "fragments": set(), "statics": []})
             e["nodes"].append(sel)
+            e["statics"].append(static)
             e["conditional"] = e["conditional"] and (conditional or has_condition(sel))
             if via:
                 e["fragments"].add(via)
         elif isinstance(sel, InlineFragmentNode):
             tc = sel.type_condition.name.value if sel.type_condition else None
             if applies(schema, tc, runtime):
-                collect(schema, fragments, sel.selection_set, runtime, conditional or has_condition(sel), out, via)
+                collect(schema, fragments, sel.selection_set, runtime, conditional or has_condition(sel), out, via,
+                        static=tc if tc is not None else static)
         elif isinstance(sel, FragmentSpreadNode):
             fr = fragments[sel.name.value]
             if applies(schema, fr.type_condition.name.value, runtime):
-                collect(schema, fragments, fr.selection_set, runtime, conditional or has_condition(sel), out, sel.name.value)
+                collect(schema, fragments, fr.selection_set, runtime, conditional or has_condition(sel), out, sel.name.value,
+                        static=fr.type_condition.name.value)
     return out
 
 
@@ -61,6 +67,21 @@ def field_def(schema, runtime, node):
     if node.name.value == "__typename":
         return None
     return runtime.fields[node.name.value]
+
+
+def static_field_types(schema, info, runtime):
+    """the field's type as the OPERATION types it: per contributing node the field definition of the type whose
+    selection set the node was written in (an implementing object may narrow an interface field's type, but a field
+    selected on the interface has the interface's type); falls back to the runtime type"""
+    out = []
+    for node, st in zip(info["nodes"], info["statics"]):
+        if node.name.value == "__typename":
+            continue
+        t = schema.type_map.get(st) if st else None
+        if t is None or not hasattr(t, "fields") or node.name.value not in t.fields:
+            t = runtime
+        out.append(t.fields[node.name.value].type)
+    return out
 
 
 def merged_selection(nodes):
@@ -71,5 +92,6 @@ def merged_selection(nodes):
 class Merged:
     """a pseudo selection set: the union of several selection sets (fields merged under one key)"""
 
-    def __init__(self, sets):
+    def __init__(self, sets, static_type=None):
         self.selections = [s for ss in sets for s in ss.selections]
+        self.static_type = static_type
